@@ -14,3 +14,5 @@ open TypifyModel.C03 TypifyModel.RoundTrip
 #print axioms struct_roundtrip_contains
 #print axioms variant_roundtrip_contains
 #print axioms TypifyModel.C03V.rt_valid_enforced
+#print axioms TypifyModel.RoundTrip.struct_rt_flat
+#print axioms TypifyModel.RoundTrip.flat_decompose
